@@ -828,11 +828,28 @@ func (cfg *Config) listElems(pe *syntax.ParamExp) (elems []string, star, ok bool
 // unquotedElemFields returns the elements of an unquoted "*" or "@" list
 // expansion like $* or ${foo[@]}; ok is false for any other expansion.
 func (cfg *Config) unquotedElemFields(pe *syntax.ParamExp) ([]string, bool, error) {
-	if pe.Excl || pe.Length || pe.Width || pe.IsSet || pe.Repl != nil || pe.Exp != nil {
+	if pe.Excl || pe.Length || pe.Width || pe.IsSet {
 		return nil, false, nil
 	}
+	if pe.Exp != nil {
+		switch pe.Exp.Op {
+		case syntax.RemSmallPrefix, syntax.RemLargePrefix,
+			syntax.RemSmallSuffix, syntax.RemLargeSuffix,
+			syntax.UpperFirst, syntax.UpperAll,
+			syntax.LowerFirst, syntax.LowerAll:
+			// These apply to each element, like replacements.
+		default:
+			return nil, false, nil
+		}
+	}
 	elems, _, ok, err := cfg.listElems(pe)
-	return elems, ok, err
+	if err != nil || !ok {
+		return nil, ok, err
+	}
+	// Operators like ${foo[@]#prefix} apply to each element, and each result
+	// is then split into fields on its own.
+	elems, err = cfg.perElemOps(pe, elems)
+	return elems, true, err
 }
 
 // quotedElemFields returns the list of elements resulting from a quoted
